@@ -39,6 +39,7 @@ func profileFor(prop string, tier string) *Profile {
 		W: map[string]int{"ent": 10, "wrk": 10, "bcn": 10, "str": 10, "gov": 3, "bank": 4, "nest": 3, "multi": 4, "attack": 3, "stake": 1}}
 	if tier == "thorough" {
 		p.MaxBlocks = 120
+		p.MaxTx = 12
 	}
 	p.Noise = 2
 	p.HoldPct = 4
@@ -47,6 +48,9 @@ func profileFor(prop string, tier string) *Profile {
 		p.Replicas, p.NodeFaults = 2, true
 		p.FaultPct = 15
 		p.Noise = 4
+		if tier == "thorough" {
+			p.Replicas = 3
+		}
 	case "C02":
 		p.W["ent"], p.W["gov"], p.W["stake"] = 25, 5, 3
 	case "C03":
